@@ -204,9 +204,53 @@ def argparse_choices(fi: FuncInfo) -> Dict[str, List[str]]:
             names = [a.value for a in c.args if isinstance(a, ast.Constant) and isinstance(a.value, str)]
             long = [n for n in names if n.startswith("--")]
             ch = q.arg(c, None, "choices")
-            if long and isinstance(ch, ast.List):
-                out[long[0]] = [e.value for e in ch.elts if isinstance(e, ast.Constant)]
+            if long and ch is not None:
+                out[long[0]] = static_strings(fi, ch)
     return out
+
+
+def static_strings(fi: FuncInfo, e) -> Optional[List[str]]:
+    """the list of string constants an expression denotes, read off literals and module-level tables: a list/tuple of
+    constants; `[n for n, _ in TABLE]` / `[r[0] for r in TABLE]`; `list(D)`, `sorted(D)`, `D.keys()`, `D` for a
+    module-level dict literal D.  None when the expression is anything else (no verdict can be based on it)."""
+    mod = fi.module
+
+    def table(name):
+        return mod.globals_assigned.get(name) if mod is not None else None
+
+    if isinstance(e, (ast.List, ast.Tuple)):
+        return [x.value for x in e.elts] if all(isinstance(x, ast.Constant) and isinstance(x.value, str) for x in e.elts) else None
+    if isinstance(e, ast.Call) and isinstance(e.func, ast.Name) and e.func.id in ("list", "sorted", "tuple") and len(e.args) == 1:
+        return static_strings(fi, e.args[0])
+    if isinstance(e, ast.Call) and isinstance(e.func, ast.Attribute) and e.func.attr == "keys" and not e.args:
+        return static_strings(fi, e.func.value)
+    if isinstance(e, ast.Name):
+        t = table(e.id)
+        if isinstance(t, ast.Dict):
+            return [k.value for k in t.keys] if all(isinstance(k, ast.Constant) and isinstance(k.value, str) for k in t.keys) else None
+        if isinstance(t, (ast.List, ast.Tuple)):
+            return static_strings(fi, t)
+        return None
+    if isinstance(e, (ast.ListComp, ast.GeneratorExp)) and len(e.generators) == 1 and not e.generators[0].ifs and isinstance(e.generators[0].iter, ast.Name):
+        t = table(e.generators[0].iter.id)
+        g = e.generators[0]
+        if not isinstance(t, (ast.List, ast.Tuple)):
+            return None
+        k = None
+        if isinstance(g.target, ast.Tuple) and isinstance(e.elt, ast.Name):
+            ks = [i for i, x in enumerate(g.target.elts) if isinstance(x, ast.Name) and x.id == e.elt.id]
+            k = ks[0] if len(ks) == 1 else None
+        elif isinstance(g.target, ast.Name) and isinstance(e.elt, ast.Subscript) and isinstance(e.elt.value, ast.Name) and e.elt.value.id == g.target.id and isinstance(e.elt.slice, ast.Constant):
+            k = e.elt.slice.value
+        if k is None:
+            return None
+        out = []
+        for r in t.elts:
+            if not (isinstance(r, (ast.Tuple, ast.List)) and k < len(r.elts) and isinstance(r.elts[k], ast.Constant) and isinstance(r.elts[k].value, str)):
+                return None
+            out.append(r.elts[k].value)
+        return out
+    return None
 
 
 def check_main(ctx: Ctx, fi: FuncInfo):
@@ -214,24 +258,46 @@ def check_main(ctx: Ctx, fi: FuncInfo):
     repo = ctx.repo
     if fi.short.startswith(B):
         forms = ctx.extra.get("forms", [])
-        ctx.check(sorted(ch.get("--form", [])) == sorted(forms), "DP-TABLE", fi, "--form choices = implemented forms", str(ch.get("--form")), f"--form offers {ch.get('--form')} but convert_to_bool_expression implements {forms}", fi.node)
-        ctx.check(sorted(ch.get("--format", [])) == ["dimacs", "sympy"], "DP-TABLE", fi, "--format choices = {sympy, dimacs}", str(ch.get("--format")), f"--format offers {ch.get('--format')}", fi.node)
+        for opt, want, role in (("--form", sorted(forms), "--form choices = implemented forms"), ("--format", ["dimacs", "sympy"], "--format choices = {sympy, dimacs}")):
+            got = ch.get(opt)
+            if got is None:
+                ctx.undecided(fi.short, f"DP-TABLE [{role}]: the choices of {opt} are not a list the tables can read")
+            else:
+                ctx.check(sorted(got) == want, "DP-TABLE", fi, role, str(got), f"{opt} offers {got} but the tool implements {want}", fi.node)
     else:
         lit = repo.module("compiler").globals_assigned.get("SupportedCompiler")
         sup = [e.value for e in ast.walk(lit) if isinstance(e, ast.Constant) and isinstance(e.value, str)] if lit is not None else []
-        ctx.check(sorted(ch.get("--compiler", [])) == sorted(sup), "DP-TABLE", fi, "--compiler choices = SupportedCompiler", str(ch.get("--compiler")), f"--compiler offers {ch.get('--compiler')} but the library supports {sup}", fi.node)
-        ctx.check(sorted(ch.get("--qasm-version", [])) == ["2.0", "3.0"], "DP-TABLE", fi, "--qasm-version choices = {2.0, 3.0}", "", f"offers {ch.get('--qasm-version')}", fi.node)
+        for opt, want, role in (("--compiler", sorted(sup), "--compiler choices = SupportedCompiler"), ("--qasm-version", ["2.0", "3.0"], "--qasm-version choices = {2.0, 3.0}")):
+            got = ch.get(opt)
+            if got is None:
+                ctx.undecided(fi.short, f"DP-TABLE [{role}]: the choices of {opt} are not a list the tables can read")
+            else:
+                ctx.check(sorted(got) == want, "DP-TABLE", fi, role, str(got), f"{opt} offers {got} but the library supports {want}", fi.node)
         ver = [n for n in walk_no_nested(fi.node) if isinstance(n, ast.Assign) and norm(n.targets[0]) == "version"]
-        ok = len(ver) == 1 and norm(ver[0].value).replace(" ", "") == "3ifargs.qasm_version=='3.0'else2"
-        ctx.check(ok, "DP-TABLE", fi, "3.0 -> exporter version 3, 2.0 -> version 2", norm(ver[0].value) if ver else "", "the version option is not mapped to the exporter version of that number", ver[0] if ver else fi.node)
+        role = "3.0 -> exporter version 3, 2.0 -> version 2"
+        vt = norm(ver[0].value).replace(" ", "") if len(ver) == 1 else None
+        if vt in ("3ifargs.qasm_version=='3.0'else2", "2ifargs.qasm_version=='2.0'else3", "2ifargs.qasm_version!='3.0'else3"):
+            ctx.ok("DP-TABLE", fi, role, vt, ver[0])
+        elif vt in ("2ifargs.qasm_version=='3.0'else3", "3ifargs.qasm_version=='2.0'else2"):
+            ctx.fail("DP-TABLE", fi, role, f"`{vt}` maps the version option to the exporter version of the OTHER number", ver[0])
+        else:
+            ctx.undecided(fi.short, f"DP-TABLE [{role}]: the exporter version is computed by `{vt}`, a form outside the tables")
     # entry point selection
     sel = [n for n in walk_no_nested(fi.node) if isinstance(n, ast.If) and norm(n.test) == "args.entrypoint"]
-    ok = False
-    if len(sel) == 1:
-        b = norm(sel[0].body[0]) if sel[0].body else ""
-        o = norm(sel[0].orelse[0]) if sel[0].orelse else ""
-        ok = "f[0] == args.entrypoint" in b and "f[1]" in b and "find_last_qlassf(qlassf_list)" in o
-    ctx.check(ok, "MP-entrypoint", fi, "-e selects by name, otherwise the last definition", "", "the entry-point option does not select the function of that name / its absence does not go through find_last_qlassf", sel[0] if sel else fi.node)
+    role = "-e selects by name, otherwise the last definition"
+    if len(sel) != 1 or not sel[0].body or not sel[0].orelse or not isinstance(sel[0].body[0], ast.Assign) or not isinstance(sel[0].orelse[0], ast.Assign):
+        ctx.undecided(fi.short, f"MP-entrypoint [{role}]: the selection is not `if args.entrypoint: <by name> else: <last>`")
+    else:
+        v, why = selection_by_name(repo, fi, sel[0].body[0].value, "args.entrypoint")
+        o = norm(sel[0].orelse[0].value)
+        if v == "ok" and "find_last_qlassf(qlassf_list)" in o:
+            ctx.ok("MP-entrypoint", fi, role, why, sel[0])
+        elif v == "bad":
+            ctx.fail("MP-entrypoint", fi, role, why, sel[0])
+        elif v == "ok":
+            ctx.undecided(fi.short, f"MP-entrypoint [{role}]: without -e the function is `{o[:60]}`, not find_last_qlassf(qlassf_list)")
+        else:
+            ctx.undecided(fi.short, f"MP-entrypoint [{role}]: {why}")
     txt = norm(fi.node)
     ctx.check("parse_str(script)" in txt, "MP-entrypoint", fi, "functions come from the given script", "", "", fi.node)
     ctx.section(check_found_test, ctx, fi, sel[0] if len(sel) == 1 else None)
@@ -352,3 +418,85 @@ def check_discovery(ctx: Ctx, pf: FuncInfo):
         ctx.undecided(pf.short, f"member filter `{t[:80]}` does not test for QlassF")
     else:
         ctx.check(not others, "MP-entrypoint", pf, "every QlassF member of the script is offered", t[:60], f"members are also required to satisfy {[norm(o)[:70] for o in others]}: compiled functions of the script that fail it (built from a source string, bound from a template, aliased) silently disappear - the tool prints nothing or picks another function", gm[0])
+
+
+def selection_by_name(repo, fi: FuncInfo, value, wanted: str, depth=0):
+    """('ok' | 'bad' | 'unknown', why) for an expression that picks, from the list of (module-level name, QlassF)
+    pairs, the function whose name is `wanted`.  Followed into a helper `F(list, name)`.  The name a function is
+    offered under is the FIRST component of its pair (the module-level variable), not the `.name` of the QlassF
+    (the def it was translated from: bound templates and aliases differ)."""
+    def judge(cmp, elem_names, first_names, second_names):
+        """cmp: the Compare that mentions `wanted`"""
+        sides = [cmp.left] + list(cmp.comparators)
+        if len(sides) != 2 or not isinstance(cmp.ops[0], ast.Eq):
+            return "unknown", f"`{norm(cmp)}` is not an equality test"
+        other = sides[1] if norm(sides[0]) == wanted else sides[0]
+        t = norm(other)
+        if t in first_names or any(t == f"{e}[0]" for e in elem_names):
+            return "ok", f"`{norm(cmp)}`"
+        if isinstance(other, ast.Attribute) and other.attr in ("name", "__name__"):
+            return "bad", f"`{norm(cmp)}` compares the -e value with the function's own `.{other.attr}` (the name of the def it was translated from), not with the module-level name it is offered under: a bound template or an alias cannot be selected, or selects another function"
+        return "unknown", f"`{norm(cmp)}` compares the -e value with `{t}`"
+
+    cmps = []
+    if isinstance(value, ast.Call) and isinstance(value.func, ast.Name) and value.func.id == "next" and value.args and isinstance(value.args[0], (ast.GeneratorExp, ast.ListComp)):
+        g = value.args[0].generators[0]
+        elem, first, second = set(), set(), set()
+        if isinstance(g.target, ast.Name):
+            elem.add(g.target.id)
+        elif isinstance(g.target, ast.Tuple) and len(g.target.elts) == 2:
+            first.add(norm(g.target.elts[0])); second.add(norm(g.target.elts[1]))
+        for c in g.ifs:
+            for x in ast.walk(c):
+                if isinstance(x, ast.Compare) and wanted in [norm(y) for y in [x.left] + list(x.comparators)]:
+                    cmps.append((x, elem, first, second))
+        if not cmps:
+            return "unknown", f"`{norm(value)[:70]}` does not compare anything with `{wanted}`"
+        return judge(*cmps[0])
+    if isinstance(value, ast.Call) and isinstance(value.func, ast.Name) and depth < 2:
+        callee = None
+        r = repo.resolve_name(fi.module, value.func.id) if fi.module is not None else None
+        if isinstance(r, FuncInfo):
+            callee = r
+        if callee is None:
+            # a helper of a helper that was inlined here from another module: the name is not imported in this one
+            cands = [f for f in repo.functions.values() if f.parent is None and f.cls is None and f.name == value.func.id and f.short.startswith("tools.")]
+            if len(cands) == 1:
+                callee = cands[0]
+        if callee is None:
+            return "unknown", f"`{value.func.id}` could not be resolved"
+        ps = callee.params
+        passed = None
+        for i_, a_ in enumerate(value.args):
+            if norm(a_) == wanted and i_ < len(ps):
+                passed = ps[i_]
+        for kw in value.keywords:
+            if norm(kw.value) == wanted:
+                passed = kw.arg
+        if passed is None:
+            return "unknown", f"`{wanted}` is not handed to `{value.func.id}`"
+        # generator form inside the helper
+        for rt in q.returns(callee):
+            if isinstance(rt.value, ast.Call) and isinstance(rt.value.func, ast.Name) and rt.value.func.id == "next":
+                return selection_by_name(repo, callee, rt.value, passed, depth + 1)
+            if isinstance(rt.value, ast.Call) and isinstance(rt.value.func, ast.Name) and rt.value.func.id != callee.name and any(norm(a_) == passed for a_ in rt.value.args):
+                guards = [norm(e_) for e_, pol in guard_facts(callee, rt) if pol]
+                if passed in guards or not guards:
+                    return selection_by_name(repo, callee, rt.value, passed, depth + 1)
+        # loop form
+        for l_ in q.for_loops(callee.node):
+            elem, first, second = set(), set(), set()
+            if isinstance(l_.target, ast.Name):
+                elem.add(l_.target.id)
+            elif isinstance(l_.target, ast.Tuple) and len(l_.target.elts) == 2:
+                first.add(norm(l_.target.elts[0])); second.add(norm(l_.target.elts[1]))
+            for x in ast.walk(l_):
+                if isinstance(x, ast.Compare) and passed in [norm(y) for y in [x.left] + list(x.comparators)]:
+                    saved = wanted
+                    wanted = passed
+                    try:
+                        return judge(x, elem, first, second)
+                    finally:
+                        wanted = saved
+        return "unknown", f"`{value.func.id}` does not look the name up in a way the tables describe"
+    return "unknown", f"`{norm(value)[:70]}` is not a look-up by name the tables describe"
